@@ -845,6 +845,15 @@ def execUnpack (env : Env) (t : Ty) (a : Val) : Res Val :=
     | _ => .ok (.none t)
   | _ => .stuck
 
+/-- CHECK_SIGNATURE after `pop3`: `pk.assert_type_equal(KeyType)`, `sig.assert_type_equal(SignatureType)`,
+`msg.assert_type_equal(BytesType)`, `key = Key.from_encoded_key(str(pk))`, `try: key.verify(signature=str(sig),
+message=bytes(msg)) except ValueError: res = BoolType(False) else: res = BoolType(True)` — whether `verify` raises is the
+parameter `env.hashes.checkSig` -/
+def execCheckSignature (env : Env) (pk sig msg : Val) : Res Val :=
+  match pk, sig, msg with
+  | .atom .key k, .atom .signature s, .bytes m => .ok (.bool (env.hashes.checkSig k s m))
+  | _, _, _ => .stuck
+
 /-- the instructions of extension 2 of the shape `a = stack.pop1(); a.assert_type_…(…); res = …; stack.push(res)`:
 `res` for the popped `a` -/
 def execUn (env : Env) (i : Instr) (a : Val) : Res Val :=
@@ -872,6 +881,7 @@ def stepExt (env : Env) (i : Instr) (s : Stack) : Res Stack :=
   -- parameter section at the driver boundary)
   | .SELF ep t => pure (s.push (.contract t (addrFromValue (env.self ++ 37 :: ep))))
   | .TRANSFER_TOKENS => do let (a, b, c, s) ← s.pop3; let r ← execTransferTokens env a b c; pure (s.push r)
+  | .CHECK_SIGNATURE => do let (a, b, c, s) ← s.pop3; let r ← execCheckSignature env a b c; pure (s.push r)
   | i => do let (a, s) ← s.pop1; let r ← execUn env i a; pure (s.push r)
 
 /-- further instructions without sub-programs (kept apart from `step` so that either pattern match stays small) -/
